@@ -10,13 +10,15 @@
 //	num  := h<hex IEEE bits (8 digits = float32, 16 = float64)> | <int> | <int>/<power of two>
 //
 // Output: `R <poly>` (numbers as h<bits> of the operand float type) or `operands-modified` / `empty-mismatch` /
-// `panic` (hx.Main) / `bad-op`.
+// `panic` / `timeout` (per-call watchdog) / `bad-op`.
 package main
 
 import (
 	"math"
+	"os"
 	"strconv"
 	"strings"
+	"time"
 
 	"github.com/richardwilkes/toolbox/xmath/geom"
 	"github.com/richardwilkes/toolbox/xmath/geom/poly"
@@ -221,16 +223,42 @@ func runT[T constraints.Float](op string, t *tokens) string {
 
 type area struct{ kind int }
 
-func (area) Run(line string) (out string) {
-	defer func() {
-		if r := recover(); r != nil {
-			if _, ok := r.(badOp); ok {
-				out = "bad-op"
-				return
+// Every call runs under a watchdog: a clipper that loops costs callTimeout, not the stream's timeout.  The looping
+// goroutine cannot be killed, so after maxTimeouts of them the rest of the stream is skipped (`skipped-after-crash`,
+// the token vlib uses for "not executed").
+var (
+	callTimeout = 5 * time.Second
+	maxTimeouts = 3
+	timeouts    int
+)
+
+func (area) Run(line string) string {
+	if timeouts >= maxTimeouts {
+		return "skipped-after-crash"
+	}
+	done := make(chan string, 1)
+	go func() {
+		defer func() {
+			if r := recover(); r != nil {
+				if _, ok := r.(badOp); ok {
+					done <- "bad-op"
+				} else {
+					done <- "panic"
+				}
 			}
-			panic(r)
-		}
+		}()
+		done <- runLine(line)
 	}()
+	select {
+	case out := <-done:
+		return out
+	case <-time.After(callTimeout):
+		timeouts++
+		return "timeout"
+	}
+}
+
+func runLine(line string) string {
 	t := &tokens{f: strings.Fields(line)}
 	op := t.next()
 	ft := t.next()
@@ -262,6 +290,13 @@ func (a area) Gen(r *hx.Rng, n int, tier string, emit func(string)) {
 			emit(genGeneral(r.Fork()))
 		case 2:
 			emit(genDegenerate(r.Fork()))
+		case 3:
+			emit(genBigLattice(r.Fork()))
+		case 4:
+			emit(genBigGeneral(r.Fork()))
+		case 5:
+			genDemo(r, emit)
+			return
 		default:
 			emit(genLattice(r.Fork()))
 		}
@@ -269,5 +304,9 @@ func (a area) Gen(r *hx.Rng, n int, tier string, emit func(string)) {
 }
 
 func main() {
-	hx.Main(map[string]hx.Area{"lattice": area{kind: 0}, "general": area{kind: 1}, "degenerate": area{kind: 2}})
+	if ms, err := strconv.Atoi(os.Getenv("C05_CALL_TIMEOUT_MS")); err == nil && ms > 0 {
+		callTimeout = time.Duration(ms) * time.Millisecond
+	}
+	hx.Main(map[string]hx.Area{"lattice": area{kind: 0}, "general": area{kind: 1}, "degenerate": area{kind: 2},
+		"biglattice": area{kind: 3}, "biggeneral": area{kind: 4}, "demo": area{kind: 5}})
 }
